@@ -79,8 +79,11 @@ package bridgesync
 //@   ensures[all-or-nothing] (!old(p.halted) && lastTx != old(lastTx)) ==> ((result == nil ==> txState(lastTx) == 1) && (result != nil ==> txState(lastTx) == 2))
 //@   ensures[no-transaction-no-success] (!old(p.halted) && lastTx == old(lastTx)) ==> result != nil
 //@   ensures[halts-only-with-inconsistency-error] p.halted != old(p.halted) ==> p.halted && result == sync.ErrInconsistentState
+//@   ensures[deposit-count-gap-halts] (!old(p.halted) && leafCalls != old(leafCalls) && isErr(lastLeafErr, tree.ErrInvalidIndex)) ==> p.halted && result == sync.ErrInconsistentState
+//@   ensures[committed-only-if-every-statement-succeeded] result == nil ==> stmtFail == old(stmtFail)
 //@   loop 0 invariant p.halted == old(p.halted) && !p.halted && p.log == old(p.log) && p.log != nil && p.exitTree == old(p.exitTree) && p.exitTree != nil && p.exitTree.Tree != nil && len(p.exitTree.zeroHashes) == 33
 //@   loop 0 invariant 0 <= rangeindex + 1 && rangeindex + 1 <= len(block.Events)
+//@   loop 0 invariant stmtFail == old(stmtFail) && (leafCalls == old(leafCalls) || lastLeafErr == nil)
 //@   loop 0 invariant shouldRollback && tx != nil && lastTx == tx && tx != old(lastTx) && txState(tx) == 0
 
 //@ func (p *processor) Reorg
